@@ -6,6 +6,7 @@ mod history;
 mod hooks;
 mod ops;
 mod props;
+mod scen;
 mod tree;
 
 use std::path::PathBuf;
